@@ -34,11 +34,16 @@ def main() -> int:
 	if os.path.exists(os.path.join(wt, demo)):
 		shutil.copy(os.path.join(wt, demo), os.path.join(out, demo))
 		rc_with, out_with = sh([PY, demo], wt)
-		sh(['git', 'stash'], wt)
+		# (git stash is shared by all worktrees of a repository: revert/re-apply the stored patch instead)
+		patch = os.path.join(out, 'patch.diff')
+		rc_r, msg_r = sh(['git', 'apply', '-R', patch], wt)
+		if rc_r != 0:
+			print('cannot revert patch:', msg_r)
+			return 2
 		try:
 			rc_without, out_without = sh([PY, demo], wt)
 		finally:
-			sh(['git', 'stash', 'pop'], wt)
+			sh(['git', 'apply', patch], wt)
 		ran['demo_with_change'] = {'exit': rc_with, 'tail': out_with[-600:]}
 		ran['demo_without_change'] = {'exit': rc_without, 'tail': out_without[-300:]}
 	rc, tests = sh([PY, '-m', 'pytest', '-q', '-p', 'no:cacheprovider', '--continue-on-collection-errors'], wt)
